@@ -153,6 +153,35 @@ def run(ctx):
             break
     rep.coverage["traces_validated_against_impl"] += len(conv)
 
+    # ---- the names of the chunk files in the source text -----------------------------------
+    # tools/py2coq.py reads the name template of create_binary_event_files, the pattern of its clean-up test and the
+    # slice of every `binary_files.sort(key=...)` of ndl.py / wh.py from the tree under test; the theorems of
+    # coq/src/SrcNamesProps.v (the sort key applied to the name of chunk i is i, at every site, for every i) are
+    # re-checked against them, and the VM's names of chunks 0..K-1 are compared with the names the conversions above
+    # produced (lenient group: a NOTE when it cannot be re-established)
+    observed = set()
+    for (status, res) in results:
+        if status == "ok" and isinstance(res, dict) and res.get("status") == "ok" and isinstance(res.get("value"), dict):
+            observed |= set(res["value"].get("files", {}))
+    k_names = min(len(observed), 60)
+    cases_v = ("From PV Require Import Proto.\n"
+               "Definition src_name (i : nat) : list Z := fmt_names_prefix_src ++ "
+               "map (fun d => 48 + Z.of_nat d) (digits i) ++ fmt_names_suffix_src.\n"
+               "Eval vm_compute in (map src_name (seq 0 %d)).\n" % k_names)
+    sd = core.source_derived(sc, "Names", cases_v)
+    core.fold_source_derived(ctx, sd, "the names of the temporary chunk files")
+    if sd["translated"] and sd["cases_output"] is not None and k_names:
+        got = core.parse_coq_list(sd["cases_output"])
+        vm_names = set("".join(map(chr, n)) for n in got) if got else None
+        agree = vm_names is not None and (vm_names == observed if len(observed) <= 60 else vm_names <= observed)
+        rep.note("source_chunk_names_run_by_the_vm", {"names": k_names, "agrees_with_the_files_written": agree})
+        if not agree:
+            core.log("NOTE: the chunk names read from the source text and the files the conversions wrote disagree")
+            for t in ctx.props["theorems"]:
+                if t.get("source_derived"):
+                    t["assumptions"] = None
+    rep.lap("chunk_names_source")
+
     # ---- weights do not depend on the chunk size ------------------------------------------
     sets = []
     for k in range(8 if ctx.thorough else 5):
